@@ -55,13 +55,28 @@ Proof.
   destruct (connected st (e_conn e) && negb (e_auto e)); [destruct H as [<-|[]]; reflexivity | contradiction].
 Qed.
 
-Lemma no_spawn_replay cf st o p x : In x (replay_outs cf st o p) -> is_spawn x = false.
+Lemma deliver_no_spawn cf names fdok replies o id from serial cl : is_spawn (snd (deliver cf names fdok replies o id from serial cl)) = false.
 Proof.
-  unfold replay_outs. intros H. apply in_flat_map in H. destruct H as [e [_ H]].
-  destruct (e_auto e && connected st (e_conn e)).
-  - destruct (pol_deliver cf _ _); destruct H as [<-|[]]; reflexivity.
-  - destruct (connected st (e_conn e)); [contradiction | destruct H as [<-|[]]; reflexivity].
+  unfold deliver. destruct (msg_fd cf cl && negb fdok); [reflexivity|].
+  destruct (negb (pol_deliver cf names cl)); [reflexivity|].
+  destruct (msg_reply cf cl && (max_replies cf <=? count_replies from replies)); reflexivity.
 Qed.
+
+Lemma no_spawn_replay_gen cf st names fdok o x : forall es replies, In x (snd (replay cf st names fdok o replies es)) -> is_spawn x = false.
+Proof.
+  induction es as [|e r IH]; intros replies; [intros []|]. cbn [replay].
+  destruct (e_auto e && connected st (e_conn e)).
+  - destruct (deliver cf names fdok replies o (e_id e) (e_conn e) (e_serial e) (e_class e)) as [r1 y] eqn:D.
+    specialize (IH r1). destruct (replay cf st names fdok o r1 r) as [r2 xs]. cbn [snd] in *.
+    intros [<-|H]; [|auto]. pose proof (deliver_no_spawn cf names fdok replies o (e_id e) (e_conn e) (e_serial e) (e_class e)) as S.
+    rewrite D in S. exact S.
+  - destruct (connected st (e_conn e)); [apply IH|].
+    specialize (IH replies). destruct (replay cf st names fdok o replies r) as [r2 xs]. cbn [snd] in *.
+    intros [<-|H]; [reflexivity | auto].
+Qed.
+
+Lemma no_spawn_replay cf st o p x : In x (snd (replay_outs cf st o p)) -> is_spawn x = false.
+Proof. unfold replay_outs. apply no_spawn_replay_gen. Qed.
 
 Lemma no_spawn_fail st er p x : In x (fail_outs st er p) -> is_spawn x = false.
 Proof.
@@ -88,8 +103,9 @@ Proof.
   destruct e; simpl.
   - unfold created. simpl. destruct (find_pending _ _); [|intros []]. intros H. apply no_spawn_created in H. discriminate.
   - destruct (connected st c); [|simpl; intros [H|[]]; discriminate].
-    unfold send. destruct (owner_of (bump_id st) dest).
-    { simpl. destruct (pol_deliver cf _ _); simpl; intros [H|[]]; discriminate. }
+    unfold send. destruct (owner_of (bump_id st) dest) as [ow|].
+    { pose proof (deliver_no_spawn cf (names_of (st_owners (bump_id st)) ow) (fd_capable (bump_id st) ow) (st_replies (bump_id st)) ow (st_next_id st) c serial cl) as S.
+      destruct (deliver cf _ _ _ ow (st_next_id st) c serial cl) as [rp y]. simpl in *. intros [H|[]]. subst y. discriminate. }
     destruct noauto; [simpl; intros [H|[]]; discriminate|].
     destruct (activate cf (bump_id st) c (st_next_id st) serial dest true cl) as [st' o] eqn:A. simpl.
     intros Hin. destruct (spawn_in_activate _ _ _ _ _ _ _ _ _ _ _ _ _ A Hin) as [-> [-> [-> Fp]]].
@@ -100,13 +116,16 @@ Proof.
     repeat split; auto. right. eauto.
   - destruct (connected st c); [|intros []].
     destruct (assoc k (st_owners st)).
-    + unfold resolve. destruct (find_pending _ _); simpl; intros H.
-      * apply in_app_iff in H. destruct H as [H|[H|[]]]; [apply no_spawn_replay in H|]; discriminate.
-      * destruct H as [H|[]]; discriminate.
-    + unfold resolve, created. simpl. destruct (find_pending _ _); simpl; intros H.
-      * apply in_app_iff in H. destruct H as [H|H]; [apply no_spawn_created in H; discriminate|].
-        apply in_app_iff in H. destruct H as [H|[H|[]]]; [apply no_spawn_replay in H|]; discriminate.
-      * destruct H as [H|[]]. discriminate.
+    + unfold resolve. destruct (find_pending _ _) as [p|].
+      * pose proof (no_spawn_replay cf st n0 p) as NS. destruct (replay_outs cf st n0 p) as [rp ro]. simpl in *. intros H.
+        apply in_app_iff in H. destruct H as [H|[H|[]]]; [apply NS in H|]; discriminate.
+      * simpl. intros H. destruct H as [H|[]]; discriminate.
+    + unfold resolve, created. simpl. destruct (find_pending _ _) as [p|].
+      * match goal with |- context [replay_outs cf ?s1 c p] => set (st1 := s1) end.
+        pose proof (no_spawn_replay cf st1 c p) as NS. destruct (replay_outs cf st1 c p) as [rp ro]. simpl in *. intros H.
+        apply in_app_iff in H. destruct H as [H|H]; [apply no_spawn_created in H; discriminate|].
+        apply in_app_iff in H. destruct H as [H|[H|[]]]; [apply NS in H|]; discriminate.
+      * simpl. intros H. destruct H as [H|[]]. discriminate.
   - destruct (connected st c); [|intros []].
     destruct (assoc k (st_owners st)) as [o|]; [destruct (o =? c)|]; simpl; intros [H|[]]; discriminate.
   - intros [].
@@ -150,14 +169,73 @@ Definition fwd_to (o : N) (w : call) : out := OFwd o w.(c_id) w.(c_conn) w.(c_se
 Definition err_to (er : err) (w : call) : out := OErr w.(c_conn) w.(c_id) w.(c_serial) er.
 Definition started_to (w : call) : out := OStarted w.(c_conn) w.(c_id) w.(c_serial) 1.
 
-Definition replay_w (allowed : call -> bool) (conn : N -> bool) (o : N) (w : call) : list out :=
-  if w.(c_auto) && conn w.(c_conn)
-  then (if allowed w then [fwd_to o w] else [err_to EAccessDenied w])
-  else if conn w.(c_conn) then [] else [OGone w.(c_id)].
+(* what the release of a name does with the calls waiting for it, in arrival order, written over the specification's
+   notions (waiting calls, [live]); [deliver] is the verdict of bus_dispatch_matches for one message *)
+Fixpoint release (cf : cfg) (alive : N -> bool) (names : list N) (fdok : bool) (o : N) (replies : list (N * N)) (W : list call)
+  : list (N * N) * list out :=
+  match W with
+  | [] => (replies, [])
+  | w :: r =>
+      if w.(c_auto) && alive w.(c_conn) then
+        let '(replies1, x) := deliver cf names fdok replies o w.(c_id) w.(c_conn) w.(c_serial) w.(c_class) in
+        let '(replies2, xs) := release cf alive names fdok o replies1 r in (replies2, x :: xs)
+      else if alive w.(c_conn) then release cf alive names fdok o replies r
+      else let '(replies2, xs) := release cf alive names fdok o replies r in (replies2, OGone w.(c_id) :: xs)
+  end.
 
-Lemma replay_outs_map cf st o p W : p.(p_entries) = map entry_of W ->
-  replay_outs cf st o p = flat_map (replay_w (fun w => cf.(pol_deliver) (names_of st.(st_owners) o) w.(c_class)) (connected st) o) W.
-Proof. intros H. unfold replay_outs. rewrite H, flat_map_map. apply flat_map_ext. intros w. reflexivity. Qed.
+Lemma replay_release cf st names fdok o : forall W replies,
+  replay cf st names fdok o replies (map entry_of W) = release cf (connected st) names fdok o replies W.
+Proof.
+  induction W as [|w r IH]; intros replies; [reflexivity|]. cbn [map replay release].
+  change (e_auto (entry_of w)) with (c_auto w). change (e_conn (entry_of w)) with (c_conn w).
+  change (e_id (entry_of w)) with (c_id w). change (e_serial (entry_of w)) with (c_serial w). change (e_class (entry_of w)) with (c_class w).
+  destruct (c_auto w && connected st (c_conn w)).
+  - destruct (deliver cf names fdok replies o (c_id w) (c_conn w) (c_serial w) (c_class w)) as [r1 x]. rewrite IH. reflexivity.
+  - destruct (connected st (c_conn w)); rewrite IH; reflexivity.
+Qed.
+
+Lemma release_ext cf f g names fdok o : (forall x, f x = g x) -> forall W replies,
+  release cf f names fdok o replies W = release cf g names fdok o replies W.
+Proof.
+  intros E. induction W as [|w r IH]; intros replies; [reflexivity|]. cbn [release]. rewrite E.
+  destruct (c_auto w && g (c_conn w)).
+  - destruct (deliver cf names fdok replies o (c_id w) (c_conn w) (c_serial w) (c_class w)) as [r1 x]. rewrite IH. reflexivity.
+  - destruct (g (c_conn w)); rewrite IH; reflexivity.
+Qed.
+
+(* one output per held message, for ITS sender: passed on, or exactly one of the three refusals; a StartServiceByName
+   entry gets nothing here; the entry of a caller that has gone is dropped.  Whatever happens to one message, the loop
+   carries on with the next *)
+Definition release_outcome (alive : N -> bool) (o : N) (w : call) (x : out) : Prop :=
+  if w.(c_auto) && alive w.(c_conn)
+  then x = fwd_to o w \/ x = err_to EAccessDenied w \/ x = err_to ELimitsExceeded w \/ x = err_to ENotSupported w
+  else x = OGone w.(c_id).
+
+Lemma deliver_outcome cf names fdok replies o w :
+  let x := snd (deliver cf names fdok replies o w.(c_id) w.(c_conn) w.(c_serial) w.(c_class)) in
+  x = fwd_to o w \/ x = err_to EAccessDenied w \/ x = err_to ELimitsExceeded w \/ x = err_to ENotSupported w.
+Proof.
+  unfold deliver. destruct (msg_fd cf (c_class w) && negb fdok); [right; right; right; reflexivity|].
+  destruct (negb (pol_deliver cf names (c_class w))); [right; left; reflexivity|].
+  destruct (msg_reply cf (c_class w) && (max_replies cf <=? count_replies (c_conn w) replies)); [right; right; left; reflexivity | left; reflexivity].
+Qed.
+
+Lemma release_per_message cf alive names fdok o : forall W replies,
+  Forall2 (release_outcome alive o) (filter (fun w => negb (alive w.(c_conn) && negb w.(c_auto))) W)
+          (snd (release cf alive names fdok o replies W)).
+Proof.
+  induction W as [|w r IH]; intros replies; [constructor|]. cbn [release filter].
+  destruct (c_auto w) eqn:Ea, (alive (c_conn w)) eqn:El; cbn [andb negb].
+  - pose proof (deliver_outcome cf names fdok replies o w) as D.
+    destruct (deliver cf names fdok replies o (c_id w) (c_conn w) (c_serial w) (c_class w)) as [r1 x]. specialize (IH r1).
+    destruct (release cf alive names fdok o r1 r) as [r2 xs]. cbn [snd] in *. constructor; [|exact IH].
+    unfold release_outcome. rewrite Ea, El. exact D.
+  - specialize (IH replies). destruct (release cf alive names fdok o replies r) as [r2 xs]. cbn [snd] in *. constructor; [|exact IH].
+    unfold release_outcome. rewrite Ea, El. reflexivity.
+  - apply IH.
+  - specialize (IH replies). destruct (release cf alive names fdok o replies r) as [r2 xs]. cbn [snd] in *. constructor; [|exact IH].
+    unfold release_outcome. rewrite Ea, El. reflexivity.
+Qed.
 
 Lemma created_outs_map st p W : p.(p_entries) = map entry_of W ->
   created_outs st p = map started_to (filter (fun w => connected st w.(c_conn) && negb w.(c_auto)) W).
@@ -172,72 +250,38 @@ Proof.
   rewrite IH. destruct (connected st (c_conn w)); reflexivity.
 Qed.
 
-Lemma filter_map_none {A} (P : out -> bool) (g : A -> out) l : (forall x, P (g x) = false) -> filter P (map g l) = [].
-Proof. intros H. induction l as [|x l IH]; simpl; [reflexivity|]. rewrite H. exact IH. Qed.
-
-Lemma filter_map_all {A} (P : out -> bool) (g : A -> out) l : (forall x, P (g x) = true) -> filter P (map g l) = map g l.
-Proof. intros H. induction l as [|x l IH]; simpl; [reflexivity|]. rewrite H, IH. reflexivity. Qed.
-
-Lemma replay_fwd allowed conn o W :
-  filter is_fwd (flat_map (replay_w allowed conn o) W) = map (fwd_to o) (filter (fun w => w.(c_auto) && conn w.(c_conn) && allowed w) W).
-Proof.
-  rewrite filter_flat_map. apply flat_map_single. intros w. unfold replay_w.
-  destruct (c_auto w), (conn (c_conn w)), (allowed w); reflexivity.
-Qed.
-
-Lemma replay_err allowed conn o W :
-  filter is_err (flat_map (replay_w allowed conn o) W) = map (err_to EAccessDenied) (filter (fun w => w.(c_auto) && conn w.(c_conn) && negb (allowed w)) W).
-Proof.
-  rewrite filter_flat_map. apply flat_map_single. intros w. unfold replay_w.
-  destruct (c_auto w), (conn (c_conn w)), (allowed w); reflexivity.
-Qed.
-
-Lemma replay_started allowed conn o W : filter is_started (flat_map (replay_w allowed conn o) W) = [].
-Proof.
-  rewrite filter_flat_map. induction W as [|w W IH]; simpl; [reflexivity|]. rewrite IH, app_nil_r. unfold replay_w.
-  destruct (c_auto w), (conn (c_conn w)), (allowed w); reflexivity.
-Qed.
-
 Theorem held_once_in_order cf h st tr c s k : wk_services cf /\ wk_history h -> after cf h = (st, tr) ->
   connected st c = true -> assoc k st.(st_owners) = None ->
   let W := waiting tr (Wk k) in
   let o := snd (step cf st (ERequest c s k)) in
-  let allowed := fun w : call => cf.(pol_deliver) (k :: names_of st.(st_owners) c) w.(c_class) in
-  filter is_fwd o = map (fwd_to c) (filter (fun w => w.(c_auto) && live tr w.(c_conn) && allowed w) W) /\
-  filter is_err o = map (err_to EAccessDenied) (filter (fun w => w.(c_auto) && live tr w.(c_conn) && negb (allowed w)) W) /\
-  filter is_started o = map started_to (filter (fun w => live tr w.(c_conn) && negb w.(c_auto)) W) /\
-  In (ODrv c s 1) o /\
+  let names := k :: names_of st.(st_owners) c in
+  let rel := snd (release cf (live tr) names (fd_capable st c) c st.(st_replies) W) in
+  (* StartServiceByName callers first, then the held messages in arrival order, then the RequestName reply: always PRIMARY_OWNER *)
+  o = map started_to (filter (fun w => live tr w.(c_conn) && negb w.(c_auto)) W) ++ rel ++ [ODrv c s 1] /\
+  Forall2 (release_outcome (live tr) c) (filter (fun w => negb (live tr w.(c_conn) && negb w.(c_auto))) W) rel /\
   waiting (tr ++ [(ERequest c s k, o)]) (Wk k) = [].
 Proof.
   intros W H Hc Ho. pose proof (after_inv cf h st tr W H) as I. cbv zeta.
   pose proof (step_inv cf st tr (ERequest c s k) Logic.I I) as I'.
-  simpl in I' |- *. rewrite Hc, Ho in I' |- *. unfold resolve, created in I' |- *. simpl in I' |- *.
-  assert (names_of ((k, c) :: st_owners st) c = k :: names_of (st_owners st) c) as Hnames.
-  { unfold names_of. simpl. rewrite N.eqb_refl. reflexivity. }
-  destruct (find_pending (Wk k) (st_pend st)) as [p|] eqn:F; simpl in I' |- *.
-  - apply find_pending_In in F as F'. destruct F' as [Hp Hname].
-    pose proof (inv_entries cf st tr I p Hp) as He. rewrite Hname in He.
-    set (st1 := {| st_conns := st_conns st; st_next_conn := st_next_conn st; st_owners := (k, c) :: st_owners st;
-                   st_pend := st_pend st; st_next_sid := st_next_sid st; st_next_id := st_next_id st;
-                   st_services := st_services st |}) in *.
-    assert (forall x, connected st x = live tr x) as Hl by apply I.
-    assert (created_outs st p ++ replay_outs cf st1 c p ++ [ODrv c s 1] =
-            map started_to (filter (fun w => connected st w.(c_conn) && negb w.(c_auto)) (waiting tr (Wk k))) ++
-            flat_map (replay_w (fun w => cf.(pol_deliver) (k :: names_of st.(st_owners) c) w.(c_class)) (connected st) c) (waiting tr (Wk k)) ++
-            [ODrv c s 1]) as Eo.
-    { rewrite (created_outs_map st p _ He), (replay_outs_map cf st1 c p _ He).
-      change (connected st1) with (connected st). change (st_owners st1) with ((k, c) :: st_owners st). rewrite Hnames. reflexivity. }
-    repeat split.
-    + rewrite Eo, !filter_app, replay_fwd. simpl. rewrite app_nil_r.
-      rewrite filter_map_none by reflexivity. simpl. f_equal. apply filter_ext. intros w. rewrite Hl. reflexivity.
-    + rewrite Eo, !filter_app, replay_err. simpl. rewrite app_nil_r.
-      rewrite filter_map_none by reflexivity. simpl. f_equal. apply filter_ext. intros w. rewrite Hl. reflexivity.
-    + rewrite Eo, !filter_app, replay_started. simpl. rewrite app_nil_r.
-      rewrite filter_map_all by reflexivity. f_equal. apply filter_ext. intros w. rewrite Hl. reflexivity.
-    + apply in_app_iff. right. apply in_app_iff. right. left. reflexivity.
-    + apply (inv_find_none_waiting _ _ _ I'). simpl. rewrite find_pending_remove, bname_eqb_refl. reflexivity.
-  - pose proof (inv_find_none_waiting cf st tr I _ F) as Hw. rewrite Hw. simpl. repeat split; auto.
-    apply (inv_find_none_waiting _ _ _ I'). simpl. exact F.
+  assert (forall x, connected st x = live tr x) as Hl by apply I.
+  split; [|split; [apply release_per_message|]].
+  - simpl. rewrite Hc, Ho. unfold resolve, created. simpl.
+    assert (names_of ((k, c) :: st_owners st) c = k :: names_of (st_owners st) c) as Hnames.
+    { unfold names_of. simpl. rewrite N.eqb_refl. reflexivity. }
+    destruct (find_pending (Wk k) (st_pend st)) as [p|] eqn:F.
+    + apply find_pending_In in F as F'. destruct F' as [Hp Hname].
+      pose proof (inv_entries cf st tr I p Hp) as He. rewrite Hname in He.
+      unfold replay_outs. simpl. rewrite Hnames, He, replay_release.
+      change (fd_capable _ c) with (fd_capable st c).
+      rewrite (release_ext cf _ (live tr) _ _ _ Hl).
+      destruct (release cf (live tr) (k :: names_of (st_owners st) c) (fd_capable st c) c (st_replies st) (waiting tr (Wk k))) as [rp ro].
+      simpl. rewrite (created_outs_map st p _ He). f_equal. f_equal. apply filter_ext. intros w. rewrite Hl. reflexivity.
+    + rewrite (inv_find_none_waiting cf st tr I _ F). reflexivity.
+  - simpl in I' |- *. rewrite Hc, Ho in I' |- *. unfold resolve, created in I' |- *. simpl in I' |- *.
+    destruct (find_pending (Wk k) (st_pend st)) as [p|] eqn:F.
+    + destruct (replay_outs cf _ c p) as [rp ro]. simpl in I' |- *.
+      apply (inv_find_none_waiting _ _ _ I'). simpl. rewrite find_pending_remove, bname_eqb_refl. reflexivity.
+    + simpl in I' |- *. apply (inv_find_none_waiting _ _ _ I'). simpl. exact F.
 Qed.
 
 (* ---------------------------------------------------------------- failures: every waiting caller is answered once *)
@@ -378,6 +422,7 @@ Definition is_reload (e : event) : Prop := (exists c s, e = EReload c s) \/ (exi
 
 Lemma reload_keeps_rest cf st tr e : is_reload e ->
   (fst (step cf st e)).(st_conns) = st.(st_conns) /\ (fst (step cf st e)).(st_owners) = st.(st_owners) /\
+  (fst (step cf st e)).(st_fdok) = st.(st_fdok) /\ (fst (step cf st e)).(st_replies) = st.(st_replies) /\
   (forall c, live (tr ++ [(e, snd (step cf st e))]) c = live tr c).
 Proof.
   intros [[c [s ->]]|[l ->]]; simpl.
@@ -385,21 +430,21 @@ Proof.
   - repeat split. intros x. rewrite live_snoc. reflexivity.
 Qed.
 
-(* the messages held before a reload are the ones delivered, in order, when the name is taken after it *)
+(* the messages held before a reload are the ones released, in order, when the name is taken after it *)
 Corollary held_once_in_order_across_reload cf h st tr e c s k :
   wk_services cf /\ wk_history h -> wk_event e -> is_reload e -> after cf h = (st, tr) ->
   connected st c = true -> assoc k st.(st_owners) = None ->
   let st1 := fst (step cf st e) in
   let o := snd (step cf st1 (ERequest c s k)) in
   let W := waiting tr (Wk k) in
-  let allowed := fun w : call => cf.(pol_deliver) (k :: names_of st.(st_owners) c) w.(c_class) in
-  filter is_fwd o = map (fwd_to c) (filter (fun w => w.(c_auto) && live tr w.(c_conn) && allowed w) W) /\
-  filter is_started o = map started_to (filter (fun w => live tr w.(c_conn) && negb w.(c_auto)) W) /\
+  let names := k :: names_of st.(st_owners) c in
+  o = map started_to (filter (fun w => live tr w.(c_conn) && negb w.(c_auto)) W) ++
+      snd (release cf (live tr) names (fd_capable st c) c st.(st_replies) W) ++ [ODrv c s 1] /\
   waiting ((tr ++ [(e, snd (step cf st e))]) ++ [(ERequest c s k, o)]) (Wk k) = [].
 Proof.
   intros [W Wh] We Hr H Hc Ho. cbv zeta.
   pose proof (after_inv cf h st tr (conj W Wh) H) as I.
-  destruct (reload_keeps_rest cf st tr e Hr) as [Ec [Eo El]].
+  destruct (reload_keeps_rest cf st tr e Hr) as [Ec [Eo [Ef [Er El]]]].
   destruct (reload_keeps_pending cf st tr e Hr) as [_ [_ [_ Ew]]].
   specialize (Ew (i_fated_lt _ _ _ I)).
   assert (wk_history (h ++ [e])) as Wh'.
@@ -407,18 +452,17 @@ Proof.
   pose proof (after_snoc cf h e st tr H) as H'.
   assert (connected (fst (step cf st e)) c = true) as Hc' by (unfold connected in *; rewrite Ec; exact Hc).
   assert (assoc k (st_owners (fst (step cf st e))) = None) as Ho' by (rewrite Eo; exact Ho).
-  destruct (held_once_in_order cf (h ++ [e]) _ _ c s k (conj W Wh') H' Hc' Ho') as [F1 [_ [F3 [_ F5]]]].
-  rewrite Eo, Ew in F1. rewrite Ew in F3.
-  repeat split.
-  - rewrite F1. f_equal. apply filter_ext. intros w. rewrite El. reflexivity.
-  - rewrite F3. f_equal. apply filter_ext. intros w. rewrite El. reflexivity.
-  - exact F5.
+  destruct (held_once_in_order cf (h ++ [e]) _ _ c s k (conj W Wh') H' Hc' Ho') as [F1 [_ F3]].
+  split; [|exact F3].
+  rewrite F1, Eo, Er, Ew. unfold fd_capable. rewrite Ef.
+  rewrite (release_ext cf _ (live tr) _ _ _ El). f_equal.
+  f_equal. apply filter_ext. intros w. rewrite El. reflexivity.
 Qed.
 
 (* ---------------------------------------------------------------- what the faithful model does NOT satisfy *)
 (* F19.1: with a service file for a unique name a StartServiceByName caller is answered twice *)
 Definition f19_1_cfg : cfg := std_cfg [mkService (Uq 2) 7 true] 50.
-Definition f19_1_history : list event := [EConnect; EConnect; EStart 0 1 (Uq 2); EConnect; ETimeout 0].
+Definition f19_1_history : list event := [EConnect false; EConnect false; EStart 0 1 (Uq 2); EConnect false; ETimeout 0].
 
 Lemma one_fate_refuted : ~ NoDup (fated (snd (after f19_1_cfg f19_1_history))).
 Proof.
@@ -427,7 +471,7 @@ Proof.
 Qed.
 
 (* ... and a message held for the unique name is not delivered although the name has an owner *)
-Definition f19_1_history2 : list event := [EConnect; EConnect; ESend 1 1 (Uq 2) false 0; EConnect].
+Definition f19_1_history2 : list event := [EConnect false; EConnect false; ESend 1 1 (Uq 2) false 0; EConnect false].
 Lemma held_for_unique_not_delivered :
   let '(st, tr) := after f19_1_cfg f19_1_history2 in
   owner_of st (Uq 2) = Some 2 /\ (waiting tr (Uq 2) <> []) /\ fated tr = [].
@@ -435,7 +479,7 @@ Proof. vm_compute. repeat split; discriminate. Qed.
 
 (* F19.2: the failure of one process answers the callers of another name that shares the Exec line *)
 Definition f19_2_cfg : cfg := std_cfg [mkService (Wk 1) 1 true; mkService (Wk 2) 1 true] 50.
-Definition f19_2_history : list event := [EConnect; EConnect; ESend 0 1 (Wk 1) false 0; ESend 1 1 (Wk 2) false 0].
+Definition f19_2_history : list event := [EConnect false; EConnect false; ESend 0 1 (Wk 1) false 0; ESend 1 1 (Wk 2) false 0].
 
 Lemma failure_own_name_refuted :
   let '(st, tr) := after f19_2_cfg f19_2_history in
